@@ -18,19 +18,23 @@ func init() { register("C15", "model_checking", runC15) }
 
 // A trie operation is written "+w" (Add) or "-w" (Delete).
 type c15Case struct {
-	Sigma string   `json:"alphabet"`
+	Sigma core.S   `json:"alphabet"`
 	D     int      `json:"max_word_len"`
-	Words []string `json:"words,omitempty"` // if set: the word list used instead of alphabet^<=D
-	Hist  []string `json:"history"`
-	Op    string   `json:"op"`   // "" = per-state JSON differential only
+	Words []core.S `json:"words,omitempty"` // if set: the word list used instead of alphabet^<=D
+	Hist  []core.S `json:"history"`
+	Op    core.S   `json:"op"`   // "" = per-state JSON differential only
 	Mode  string   `json:"mode"` // "step" | "json"
 }
 
 func trieWords(c c15Case) []string {
 	if len(c.Words) > 0 {
-		return c.Words
+		out := make([]string, len(c.Words))
+		for i, w := range c.Words {
+			out[i] = string(w)
+		}
+		return out
 	}
-	return enum.AllStrings(c.Sigma, c.D)
+	return enum.AllStrings(string(c.Sigma), c.D)
 }
 
 func trieOps(c c15Case) []string {
@@ -49,15 +53,16 @@ func trieOps(c c15Case) []string {
 // trieProbes: every prefix of every word, and every word extended by one letter.
 func trieProbes(c c15Case) []string {
 	if len(c.Words) == 0 {
-		return enum.AllStrings(c.Sigma, c.D+1)
+		return enum.AllStrings(string(c.Sigma), c.D+1)
 	}
 	set := map[string]struct{}{}
-	for _, w := range c.Words {
+	for _, cw := range c.Words {
+		w := string(cw)
 		for i := 0; i <= len(w); i++ {
 			set[w[:i]] = struct{}{}
 		}
 		for i := 0; i < len(c.Sigma); i++ {
-			set[w+c.Sigma[i:i+1]] = struct{}{}
+			set[w+string(c.Sigma[i:i+1])] = struct{}{}
 		}
 	}
 	var out []string
@@ -127,7 +132,7 @@ func trieStep(c c15Case, probes []string) (key string, out core.Outcome) {
 		t := trie.New()
 		m := ref.TrieSet{}
 		for _, op := range c.Hist {
-			if f := applyTrieOp(t, m, op); f != "" {
+			if f := applyTrieOp(t, m, string(op)); f != "" {
 				fail = "while replaying history: " + f
 				return
 			}
@@ -137,11 +142,11 @@ func trieStep(c c15Case, probes []string) (key string, out core.Outcome) {
 			key, _ = trieKey(t)
 			return
 		}
-		if f := applyTrieOp(t, m, c.Op); f != "" {
+		if f := applyTrieOp(t, m, string(c.Op)); f != "" {
 			fail = f
 			return
 		}
-		if f := observeTrie(t, m, probes, "after "+c.Op); f != "" {
+		if f := observeTrie(t, m, probes, "after "+string(c.Op)); f != "" {
 			fail = f
 			return
 		}
@@ -199,7 +204,7 @@ func trieJSONDifferential(t *trie.Trie, m ref.TrieSet, c c15Case, probes []strin
 			t1 := trie.New()
 			m1 := ref.TrieSet{}
 			for _, h := range c.Hist {
-				applyTrieOp(t1, m1, h)
+				applyTrieOp(t1, m1, string(h))
 			}
 			if f := applyTrieOp(t1, m1, op); f != "" {
 				return f
@@ -236,13 +241,19 @@ func runC15(r *core.Run) {
 	deep := []string{"", "a", "aa", "aaa", "aaaa", "aaaaa", "aab", "aabb", "aabba", "ab", "abab", "b", "ba"}
 	long := []string{"a", strings.Repeat("a", 7), strings.Repeat("a", 8), strings.Repeat("a", 9), strings.Repeat("a", 8) + "b", strings.Repeat("a", 17), strings.Repeat("a", 33),
 		strings.Repeat("ab", 33), strings.Repeat("b", 65), strings.Repeat("b", 64) + "a", "b" + strings.Repeat("a", 130)}
-	cfgs := []cfg{{"ab", 3, nil, "bfs-ab-len3"}, {"abc", 2, nil, "bfs-abc-len2"}, {"ab", 5, deep, "bfs-deep-words"}, {"ab", 131, long, "bfs-long-words"}}
+	cfgs := []cfg{{"ab", 3, nil, "bfs-ab-len3"}, {"abc", 2, nil, "bfs-abc-len2"}, {"ab", 5, deep, "bfs-deep-words"}, {"ab", 131, long, "bfs-long-words"},
+		{"\x80\xff\"", 2, nil, "bfs-high-bytes"},
+		{"\x00\x7f\\", 2, nil, "bfs-control-bytes"},
+		{"abcdefghijkl", 2, []string{"a", "j", "ja", "jb", "jc", "jd", "je", "jf", "jg", "jh", "ji", "jj"}, "bfs-wide-nodes"}}
 	if r.Thorough() {
 		cfgs = append(cfgs, cfg{"ab", 4, nil, "bfs-ab-len4"})
 	}
 	r.Assume("the state key is the MarshalJSON text of the real trie: the trie consists of nested maps only, so equal keys are equal states")
 	for _, cf := range cfgs {
-		base := c15Case{Sigma: cf.sigma, D: cf.d, Words: cf.words}
+		base := c15Case{Sigma: core.S(cf.sigma), D: cf.d, Words: core.SS(cf.words...)}
+		if len(cf.words) == 0 {
+			base.Words = nil
+		}
 		ops := trieOps(base)
 		probes := trieProbes(base)
 		name := cf.name
@@ -257,23 +268,23 @@ func runC15(r *core.Run) {
 		if m == nil {
 			continue
 		}
-		toOps := func(h []int) []string {
-			out := make([]string, len(h))
+		toOps := func(h []int) []core.S {
+			out := make([]core.S, len(h))
 			for i, x := range h {
-				out[i] = ops[x]
+				out[i] = core.S(ops[x])
 			}
 			return out
 		}
 		initKey, _ := trieKey(trie.New())
 		stats := bfs.Search(initKey, len(ops),
 			func(hist []int, op int) bfs.Result {
-				c := c15Case{cf.sigma, cf.d, cf.words, toOps(hist), ops[op], "step"}
+				c := c15Case{base.Sigma, cf.d, base.Words, toOps(hist), core.S(ops[op]), "step"}
 				key, out := trieStep(c, probes)
 				m.Record(int64(len(hist))<<32|int64(op), c, out)
 				return bfs.Result{Key: key, Fail: out.Fail, Obs: out.Class}
 			},
 			func(hist []int) string {
-				c := c15Case{cf.sigma, cf.d, cf.words, toOps(hist), "", "json"}
+				c := c15Case{base.Sigma, cf.d, base.Words, toOps(hist), "", "json"}
 				_, out := trieStep(c, probes)
 				out.Evals = 2 * (1 + len(ops))
 				m.Record(int64(len(hist))<<32|0xffff, c, out)
